@@ -46,6 +46,14 @@ func (a *armoredWriter) Close() error {
 		return errors.New("ArmoredWriter already closed")
 	}
 	a.closed = true
+	if !a.started {
+		// Nothing was written: still emit the header line, so that the
+		// output is a valid (empty) armored file.
+		if _, err := io.WriteString(a.dst, Header+"\n"); err != nil {
+			return err
+		}
+		a.started = true
+	}
 	if err := a.encoder.Close(); err != nil {
 		return err
 	}
